@@ -13,8 +13,11 @@ which are the INPUT of the model, and a list of queries answered by the model an
     X      lyd_new_path2(tree, ..): LY_EEXIST / error / attach point and created chain = new_path on the tree
     Y      lyd_find_xpath(tree, printed path) selects exactly the node find_path finds (property-level expectation: the XPath
            evaluator is not modelled; asked for printed paths of data and notification trees only)
-    G      lyd_change_term() of a key / configuration leaf-list node, then the NEW lyd_path() of the node finds it again
-           (lyd_find_path, lyd_find_xpath) and lyd_new_path2() reports LY_EEXIST (checked inside the driver, model: ok)
+    G      lyd_change_term() of a key / configuration leaf-list node (string, or an integer type given in any lexical form),
+           then the NEW lyd_path() of the node finds it again and lyd_new_path2() reports LY_EEXIST: the model computes
+           PathModel.change_term, the hypotheses dwf / quotes_ok of the changed tree and the conclusions of
+           C15_pathmodel_change_term_paths for the changed node; the driver checks the same on libyang's tree by pointer
+           identity (plus lyd_find_xpath, oracle level); both have to answer ok
 for the path of every node and for mutated paths: dropped / duplicated / reordered key predicates, wrong, missing and
 redundant prefixes (also on key names), position 0 / out of range / far too big, predicates on the wrong node kind,
 numbers instead of literals, the other quote, white space between tokens, trailing garbage, other XPath tokens, truncated
@@ -813,10 +816,19 @@ class PathModel(Comp):
                         meta.append(("N", None))
             # last (they may reorder siblings for a moment): change a key / configuration leaf-list value, the NEW path of the
             # node has to identify it
-            cands = [n for n in nodes if n.kind in ("f1", "T1") and n.type == "s"]
+            cands = [n for n in nodes if n.kind in ("f1", "T1") and n.type and (n.type == "s" or n.type[0] in "iu")]
             rng.shuffle(cands)
-            for k, n in enumerate(cands[:6] if not both else []):
-                qs.append("G:%s:%s" % (hexs(render(segs_of(n, roots))), hexs(("G%d-" % k + rng.choice(["", "a b", "'", "]", "/"])).encode())))
+            for k, n in enumerate(cands[:8] if not both else []):
+                if n.type == "s":
+                    w = ("G%d-" % k + rng.choice(["", "a b", "'", "]", "/"])).encode()       # a value no node has
+                else:
+                    used = set(x.value for x in nodes if x.name == n.name)
+                    free = [v for v in range(0, 120) if str(v).encode() not in used]
+                    if not free:
+                        continue
+                    v = rng.choice(free)
+                    w = rng.choice(["%d", "+%d", "0%d", " %d ", "\t+00%d\n"]).__mod__(v).encode()   # any lexical form of it
+                qs.append("G:%s:%s" % (hexs(render(segs_of(n, roots))), hexs(w)))
                 meta.append(("G", index_path(n, roots)))
             f = line.split("\t")
             cl = "\t".join(["pm"] + f[1:] + [sd, td] + qs)
